@@ -60,6 +60,9 @@ var profiles = map[string]profile{
 			"pkg/blockchain/data_access.go":           {Swap: map[string]string{"golang.org/x/sync/errgroup": pErrgroup}},
 			"pkg/generator/generator.go":              {Swap: map[string]string{"time": pTime}},
 			"pkg/txpool/txpool.go":                    {Swap: map[string]string{"time": pTime}},
+			// the order of the entries inside a stored diff follows Go's map iteration; it has no meaning, but two nodes
+			// that did the same thing must produce the same bytes for the database images to be comparable (C13)
+			"pkg/db/diffdb/cachedb.go": {MapRanges: []string{"c.data"}},
 		},
 		AddDirs:    []string{"common", "chainsim"},
 		ReplacePkg: map[string]string{"pkg/p2p": "chainstub/p2p"},
